@@ -128,6 +128,9 @@ type Exec struct {
 	pinNext             *pinSpec
 	hbFilter            func(*frame) bool
 	clock               uint64
+	FastPath            bool
+	CrossCheck          bool
+	FastDecided         int64
 	sleeps              []value
 }
 
